@@ -45,6 +45,10 @@ type c23Case struct {
 	// BigCred: the client identifies itself with the largest AUTH_SYS credential the protocol allows (255-byte machine
 	// name, 16 supplementary groups); a WRITE of the advertised wtmax must fit into a record all the same
 	BigCred bool `json:"big_cred,omitempty"`
+	// RateLimit: the export runs with rate limiting enabled (default configuration). A large READ or WRITE may then be
+	// told to come back later (JUKEBOX); the client does, up to four times 1.2 s apart - a transfer within the
+	// advertised maximum that is never admitted is not served
+	RateLimit bool `json:"rate_limit,omitempty"`
 }
 
 var c23Sizes = []int{1, 7, 512, 4096, 65536, 100000, 1 << 20, 1 << 22, 0}
@@ -66,6 +70,7 @@ func genC23(t *rapid.T) c23Case {
 		c.FragBytes = pick(t, "frag_bytes", 100, 4096, 65536, 262144, 524288, 1000000)
 	}
 	c.BigCred = rapid.Bool().Draw(t, "bigcred")
+	c.RateLimit = rapid.IntRange(0, 3).Draw(t, "ratelimit") == 0
 	return c
 }
 
@@ -78,6 +83,10 @@ type c23Conn struct {
 	// fresh connection, with 90 s: on a starved machine a 1 MiB record takes its time, and only a request that is
 	// not answered then either counts as unanswered.
 	patience time.Duration
+}
+
+func c23Jukebox(rp *nfsx.Reply) bool {
+	return rp != nil && rp.Stat == nfsx.MsgAccepted && rp.AcceptStat == nfsx.AcceptSuccess && len(rp.Body) >= 4 && (&nfsx.R{B: rp.Body}).U32() == nfsx.ErrJukebox
 }
 
 func c23Timeout(err error) bool {
@@ -146,7 +155,12 @@ func c23Counts(max, pref uint32, sel []int) []uint32 {
 func runC23(tb stat.TB, c c23Case) {
 	const id, check = "C23", "TestC23"
 	v := vfs.New()
-	n, err := absnfs.New(v, absnfs.ExportOptions{TransferSize: c.TS, AttrCacheTimeout: 1, AttrCacheSize: 4, MaxWorkers: 2})
+	eo := absnfs.ExportOptions{TransferSize: c.TS, AttrCacheTimeout: 1, AttrCacheSize: 4, MaxWorkers: 2}
+	if c.RateLimit {
+		rlc := absnfs.DefaultRateLimiterConfig()
+		eo.EnableRateLimiting, eo.RateLimitConfig = true, &rlc
+	}
+	n, err := absnfs.New(v, eo)
 	if err != nil {
 		tb.Fatalf("harness: %v", err)
 	}
@@ -225,6 +239,11 @@ func runC23(tb stat.TB, c c23Case) {
 				data[i] = byte(i%251+wseq*17) | 1
 			}
 			rp, err := conn.call(nfsx.ProcWrite, nfsx.ProgNFS, nfsx.ArgsWrite(fh, 0, cnt, nfsx.FileSync, data))
+			for try := 0; c.RateLimit && err == nil && c23Jukebox(rp) && try < 4; try++ {
+				stat.Label("transfer_told_to_come_back_later_and_repeated", 1)
+				time.Sleep(1200 * time.Millisecond)
+				rp, err = conn.call(nfsx.ProcWrite, nfsx.ProgNFS, nfsx.ArgsWrite(fh, 0, cnt, nfsx.FileSync, data))
+			}
 			if err != nil && c23Timeout(err) {
 				// no reply within 10 s and the connection still open: the same (idempotent) WRITE once more, patiently
 				stat.Label("write_repeated_with_90s_patience_after_10s_without_reply", 1)
@@ -259,6 +278,11 @@ func runC23(tb stat.TB, c c23Case) {
 		}
 		for _, cnt := range c23Counts(f.Rtmax, f.Rtpref, c.Sel) {
 			rp, err := conn.call(nfsx.ProcRead, nfsx.ProgNFS, nfsx.ArgsRead(fh, 0, cnt))
+			for try := 0; c.RateLimit && err == nil && c23Jukebox(rp) && try < 4; try++ {
+				stat.Label("transfer_told_to_come_back_later_and_repeated", 1)
+				time.Sleep(1200 * time.Millisecond)
+				rp, err = conn.call(nfsx.ProcRead, nfsx.ProgNFS, nfsx.ArgsRead(fh, 0, cnt))
+			}
 			if err != nil && c23Timeout(err) {
 				stat.Label("read_repeated_with_90s_patience_after_10s_without_reply", 1)
 				conn.cl.Close()
